@@ -223,3 +223,7 @@ def c04_checks(repo: Repo, tier: str, res: CheckResult, eng, seed: int) -> None:
 def c19_checks(repo: Repo, tier: str, res: CheckResult, seed: int) -> None:
     """hostile identifier / key family on emitted programs (filled in with the C03 translation validation)"""
     return
+
+
+def c06_checks(repo: Repo, tier: str, res: CheckResult, seed: int) -> None:
+    return
